@@ -98,6 +98,11 @@ def child_case(case):
                 same = out == ample
             if not same:
                 res['result_ok'] = ['differs-from-ample-stack-result', '']
+        except RecursionError:
+            # the comparison itself (str() / shape() of a tree nested several hundred groups deep) ran into CPython's
+            # C-level recursion guard, which no recursion limit lifts: no verdict from the differential oracle for this
+            # case, the well-formedness checks below still apply
+            pass
         except BaseException as e:  # noqa
             res['result_ok'] = ['ample-stack-call-raised', repr(e)[:80]]
         finally:
